@@ -16,7 +16,7 @@ ORACLE = ('reference model: a list of (line number, text) kept in ascending orde
           'exactly the model\'s lines in order, each with its number and tokenised text, the next-line links '
           'chain them and the program ends with the terminator; Program.line_numbers maps every number to its '
           'position')
-BOUNDS = {'start': 'a program of two lines (100, 200)',
+BOUNDS = {'start': 'a program of two lines (100, 200); and (one operation) a three-line program laid out so that a next-line link has a zero low byte',
           'history': '2 operations (thorough 3), each one of: enter a line (three text variants of different '
                      'length) / enter a bare number / DELETE a-b; every line number 0..65529 symbolic '
                      '(typed as five symbolic digits)',
@@ -54,11 +54,28 @@ def _body_tokens(h, text):
 def body(h):
     impl = session.mk_impl(h)
     model = []          # [(number, body tokens)] ascending
-    for num, text in BASE:
+    base = list(BASE)
+    if h.params.get('aligned'):
+        # a third line whose address is a multiple of 256 (the link of line 200 then has a zero low byte):
+        # line 100 is padded to get there
+        base = [(100, b' REM '), (200, b' END'), (300, b' END')]
+        for num, text in base:
+            impl.execute(b'%d%s' % (num, text))
+        code = bytes(impl.program.bytecode.getvalue())
+        p200 = impl.program.line_numbers[200]
+        link = code[p200 + 1] + 256 * code[p200 + 2]
+        pad = (-link) % 256
+        base[0] = (100, b' REM ' + b'x' * pad)
+        impl.execute(b'NEW')
+    for num, text in base:
         impl.execute(b'%d%s' % (num, text))
         model.append((num, _body_tokens(h, text)))
     prog = impl.program
     cs = prog.code_start
+    if h.params.get('aligned'):
+        code = bytes(prog.bytecode.getvalue())
+        p200 = prog.line_numbers[200]
+        assert code[p200 + 1] == 0, 'alignment of the base program failed'
     for k, op in enumerate(h.params['ops']):
         if op == 'store':
             digs, n = _digits5(h, 'n%d_' % k)
@@ -133,4 +150,7 @@ def cases(tier):
                 continue          # shorter histories are prefixes of the longer ones (length 1 kept as smoke test)
             cs.append(Case('history-' + '-'.join(ops), body, params={'ops': ops}, symdict=['basic.program'],
                            timeout_s=6000, max_paths=400000, max_fanout=100, backend='BV'))
+    for op in ('store', 'bare', 'delete'):
+        cs.append(Case('aligned-' + op, body, params={'ops': (op,), 'aligned': True}, symdict=['basic.program'],
+                       timeout_s=6000, max_paths=400000, max_fanout=100, backend='BV'))
     return cs
